@@ -150,6 +150,23 @@ func c30mut(kind string, c c30case) streamMut {
 	return nil
 }
 
+// c30demanded: can any implementation notice this mutation in this
+// configuration? With no credentials configured (or an anonymous request)
+// chunk and trailer signatures cannot be verified at all, and a payload byte
+// flip is only detectable through a trailer checksum.
+func c30demanded(c c30case) bool {
+	if c.Config == cfgAuthOn {
+		return true
+	}
+	switch c.Mutation {
+	case "chunk-signature-digit", "trailer-signature":
+		return false
+	case "flip-payload-byte":
+		return c.Mode != modeStrS
+	}
+	return true
+}
+
 type c30env struct {
 	r       *vkit.Run
 	servers map[string]*fullServer // by config (anon shares the auth-on server)
@@ -338,6 +355,9 @@ func (e *c30env) run(c c30case) (ok bool) {
 		changed = "; stored state changed: " + firstDiff(before, after)
 	}
 	switch {
+	case !c30demanded(c) && status >= 200 && status < 400:
+		// without a signing key no server can notice this alteration: observation only
+		r.Count("observed_accepted_unverifiable_without_key_"+c.Mutation, 1)
 	case status >= 200 && status < 400:
 		// one event: the malformed upload was accepted (and therefore left an object/part behind)
 		r.Count("mutations_accepted_"+c.Mutation+"_"+c.Mode, 1)
